@@ -279,11 +279,12 @@ func (e *Extractor) extractPrefixesAlternate(re *syntax.Regexp, depth int) *Seq 
 		result.Dedup()
 		if result.Len() > e.config.MaxLiterals {
 			result.literals = result.literals[:e.config.MaxLiterals]
+			// Dropping literals leaves branches without any representative.
+			overflowed = true
 		}
 		// Mark partial coverage when overflow truncated branches.
-		// Prefilter with partial coverage CANNOT be used in candidate loops
-		// (would miss unrepresented branches). Only safe as skip-ahead
-		// inside NFA/DFA engine (Rust approach: PikeVM integrates prefilter).
+		// A literal set with partial coverage must not be used to skip input
+		// at all: a match of an unrepresented branch can start anywhere.
 		if overflowed {
 			result.partialCoverage = true
 		}
